@@ -240,7 +240,8 @@ def build_unit(u, scr, workdir, tier, trace=False, common_replace=()):
                 'function': loc.get('function', ''),
                 'reach': desc.startswith('VF_REACH')}
         if item['reach'] and item['function'].startswith('h_') and \
-                item['function'] != entry:
+                item['function'] != entry and \
+                item['function'] not in u.get('marker_functions', []):
             continue  # marker of another harness in the same file
         if trace and 'trace' in c:
             item['trace'] = c['trace']
